@@ -139,6 +139,11 @@ class SimBackend : public mp::FlatBackend<mp::MIPBackend<SimBackend>>, public Si
 };
 
 std::unique_ptr<mp::BasicBackend> CreateSimBackend();
+// A driver built directly on mp::BasicBackend (no StdBackend, no model manager): registers its interrupt callbacks and "solves"
+// in RunFromNLFile().  Unlike the StdBackend drivers its application object can serve several Run() calls.
+std::unique_ptr<mp::BasicBackend> CreateMiniBackend();
+// the scripted callback registrations (script.registrations) due at solve iteration at_iter (-1: when the interrupter is handed over)
+void do_registrations(mp::Interrupter* inter, int at_iter);
 
 // C15 callbacks (registered through the real SetHandler path)
 bool cbA(void* data);
